@@ -7,7 +7,10 @@ uint32_t verif_threads_started, verif_joined, verif_notify_all;
 void verif_worker_step(uint32_t why);          /* harness: 1 = inside a condition wait, 2 = join */
 struct vthread { uint64_t id; };
 void _ZNSt6thread15_M_start_threadESt10unique_ptrINS_6_StateESt14default_deleteIS1_EEPFvvE(struct vthread *t, void **state, void *dep) {
-  verif_threads_started++; t->id = 1000 + verif_threads_started;   /* joinable, body not run */
+  verif_threads_started++; t->id = 1000 + verif_threads_started;   /* joinable */
+#ifdef VERIF_THREAD_RUN_AT_START
+  { extern void verif_thread_run(void *state); verif_thread_run(*state); }   /* harness decides: run the body now (synchronously) or never */
+#endif
 }
 void _ZNSt6thread4joinEv(struct vthread *t) {
   VERIF_CHECK(t->id != 0, "join on a non-joinable thread");
